@@ -488,6 +488,15 @@ pub fn dedicated_inputs() -> Vec<(&'static str, Mods, usize)> {
         let name: &'static str = ["shadowed-predefined-names/0", "shadowed-predefined-names/1", "shadowed-predefined-names/2", "shadowed-predefined-names/3", "shadowed-predefined-names/4", "shadowed-predefined-names/5"][k % 6];
         out.push((name, mods, ptrw));
     }
+    // a user type that is WORD FOR WORD what pyxis generates for an empty vftable block
+    out.push((
+        "user-type-identical-to-generated-vftable",
+        vec![(
+            ItemPath::from("kd_same"),
+            pyxis::parser::parse_str("type Foo { vftable {} }\ntype FooVftable;\ntype Other { p: *const FooVftable }").expect("parses"),
+        )],
+        8,
+    ));
     // user type named like a generated vftable struct, duplicates: consistently rejected
     out.push((
         "user-type-named-like-vftable",
